@@ -26,6 +26,10 @@ def hexconj(st, t, n=None):
     )
     if ok and n is not None:
         ok = st.holds(("eq", CallT("builtin:len", [t]), C(n)))
+    if not ok:
+        from . import hexlang
+
+        ok = hexlang.hex_missing_semantic(hexlang.current(), st, t, n) == []
     return ok
 
 
@@ -39,6 +43,12 @@ def missing_hexconj(st, t, n=None):
         out.append("%s.lower() == %s" % (show(t), show(t)))
     if n is not None and not st.holds(("eq", CallT("builtin:len", [t]), C(n))):
         out.append("len(%s) == %d" % (show(t), n))
+    if out:
+        from . import hexlang
+
+        sem = hexlang.hex_missing_semantic(hexlang.current(), st, t, n)
+        if sem is not None:
+            return ["%s %s" % (show(t), m) for m in sem]
     return out
 
 
